@@ -202,3 +202,88 @@ MUTANTS = [
     dict(name="missing column silently unbalanced", file="api.py", old='    if balance and name not in h5["bins"]:', new='    if balance and name not in h5["bins"]:\n        balance = False\n    if False:', checks=["missing_column"]),
     dict(name="pixels: balanced uses bin1 weight twice", file="api.py", old='            df["balanced"] = df2[name + "1"] * df2[name + "2"] * df2[field]', new='            df["balanced"] = df2[name + "1"] * df2[name + "1"] * df2[field]', checks=["balanced"]),
 ]
+
+
+# ---------------------------------------------------------------------------
+# cooler dump -b: the `balanced` column written by the CLI annotator
+# ---------------------------------------------------------------------------
+def dumpb_sym(p):
+    from engine import symh5, sympd
+    symh5.reset()
+    sc = symcooler()
+    import symcooler.cli.dump as D
+    n, K = p["n"], p["K"]
+    bins = concrete_bins([n], "even")
+    b1, b2, v = sym_pixels(n, K, True)
+    path = scratch_file("c12d.cool")
+    build_cooler_sym(path, bins, b1, b2, {"count": v}, True)
+    ws = _weights_sym(n, False)
+    f = symh5.File(path, "r+")
+    f["bins"].create_dataset("weight", data=SArr(ws, "float64"))
+    f.close()
+    join = bool(sym_bool("join"))
+    fill = bool(sym_bool("fill_lower"))
+    sympd.CSV_LOG.clear()
+    D.dump.callback(cool_uri=path, table="pixels", columns=None, header=False, na_rep="", float_format="g", range=None, range2=None,
+                    fill_lower=fill, balanced=True, join=join, annotate=None, one_based_ids=False, one_based_starts=False,
+                    chunksize=concretize(sym_int("chunksize", 1, K + 1)), out=scratch_file("c12d.tsv"))
+    from engine.symnp import _sel
+    rows = []
+    starts = bins["start"].tolist()
+    for fr in sympd.CSV_LOG:
+        for t in range(len(fr)):
+            rows.append({k: list(fr[k].values)[t] for k in fr.columns})
+    cover("nan_weight", or_(*[w.isnan() for w in ws]))
+    conds = []
+    for r in rows:
+        if join:
+            # identify the two bins from the joined start coordinates
+            i = ssum([ite(r["start1"] == s, k, 0) for k, s in enumerate(starts)])
+            j = ssum([ite(r["start2"] == s, k, 0) for k, s in enumerate(starts)])
+        else:
+            i, j = r["bin1_id"], r["bin2_id"]
+        e = _sel(ws, i) * _sel(ws, j) * r["count"]
+        g = SReal.of(r["balanced"])
+        conds.append(or_(and_(g.isnan(), e.isnan()), and_(not_(g.isnan()), not_(e.isnan()), g == e)))
+    prove(and_(*conds), "dump -b: balanced column is not count * weight[bin1] * weight[bin2]")
+    return [[r["count"], r["balanced"]] for r in rows]
+
+
+def dumpb_real(p, inputs):
+    import io
+    import cooler
+    import h5py
+    import pandas as pd
+    import cooler.cli.dump as D
+    n, K = p["n"], p["K"]
+    bins = concrete_bins([n], "even")
+    b1, b2, v = pixels_from_inputs(inputs, K)
+    path = scratch_file("c12d.cool")
+    build_cooler_real(path, bins, b1, b2, {"count": v}, True)
+    ws = np.array([float("nan") if inputs.get(f"w{i}#nan") else float(inputs[f"w{i}"]) for i in range(n)])
+    with h5py.File(path, "r+") as f:
+        f["bins"].create_dataset("weight", data=ws)
+    out = scratch_file("c12d.tsv")
+    D.dump.callback(cool_uri=path, table="pixels", columns=None, header=True, na_rep="nan", float_format=".17g", range=None, range2=None,
+                    fill_lower=bool(inputs["fill_lower"]), balanced=True, join=bool(inputs["join"]), annotate=None, one_based_ids=False,
+                    one_based_starts=False, chunksize=inputs["chunksize"], out=out)
+    txt = open(out).read()
+    df = pd.read_csv(io.StringIO(txt), sep="\t") if txt.strip() else pd.DataFrame()
+    starts = bins["start"].tolist()
+    res = []
+    for _, r in df.iterrows():
+        i, j = (starts.index(r["start1"]), starts.index(r["start2"])) if inputs["join"] else (int(r["bin1_id"]), int(r["bin2_id"]))
+        e = ws[i] * ws[j] * r["count"]
+        g = float(r["balanced"])
+        if not ((math.isnan(e) and math.isnan(g)) or (not math.isnan(e) and not math.isnan(g) and abs(e - g) <= 1e-9 * max(1, abs(e)))):
+            raise OracleFailure(f"dump -b row ({i},{j}): balanced {g}, count * weights = {e}")
+        res.append([int(r["count"]), g])
+    return res
+
+
+CHECKS.append(
+    Check("dump_balanced", lambda tier: [dict(n=3, K=2)] if tier == "quick" else [dict(n=3, K=2), dict(n=4, K=3)], dumpb_sym, dumpb_real, labels=("nan_weight",),
+          doc="cooler dump -b (with and without --join / --fill-lower): the `balanced` column == count * weight[bin1] * weight[bin2], NaN iff a bin is masked",
+          bounds=dict(quick="n=3, K=2, weights real or NaN", thorough="n=4, K=3"), stubs=("E9 to_csv row recorder",), timeout=1800, split_depth=6))
+MUTANTS.append(dict(name="dump -b uses weight1 twice", file="cli/dump.py", old='            chunk["balanced"] = df["weight1"] * df["weight2"] * chunk["count"]',
+                    new='            chunk["balanced"] = df["weight1"] * df["weight1"] * chunk["count"]', checks=["dump_balanced"]))
